@@ -961,14 +961,15 @@ func (e *Engine) check(c *core.Ctx, sp spec) (*core.Outcome, error) {
 		}
 		sc := f.sc
 		runs := 0
+		hash := ""
 		if minimised < 6 && f.bin == "plain" {
 			minimised++
-			sc, runs = e.minimise(f.sc, sp, f.p.Key)
+			sc, runs, hash = e.minimise(f.sc, sp, f.p.Key)
 		}
 		out.Violations = append(out.Violations, core.Violation{
 			Key: f.p.Key, Oracle: f.p.Oracle,
 			What: fmt.Sprintf("%s: %s (minimised to %d task(s), %d call(s) in %d runs)", f.sc.ID, clip(f.p.What, 900), len(sc.Tasks), countCalls(sc), runs),
-			Seed: c.Seed, Scenario: replayScenario{f.bin, sc}, Trace: map[string]any{"original": f.sc.ID},
+			Seed: c.Seed, Scenario: replayScenario{f.bin, sc}, Trace: map[string]any{"original": f.sc.ID, "sched_hash": hash},
 		})
 	}
 
@@ -1038,8 +1039,9 @@ func raceKey(rep string) string {
 
 // minimise shrinks a failing scenario while a problem with the same key persists: drop tasks, drop calls,
 // drop other calls' faults, trivial schedule, one big chunk.
-func (e *Engine) minimise(sc Scenario, sp spec, key string) (Scenario, int) {
+func (e *Engine) minimise(sc Scenario, sp spec, key string) (Scenario, int, string) {
 	runs := 0
+	lastHash := "" // schedule hash of the last failing run, i.e. of the scenario that is returned
 	fails := func(x Scenario) bool {
 		runs++
 		if runs > 60 {
@@ -1051,6 +1053,7 @@ func (e *Engine) minimise(sc Scenario, sp spec, key string) (Scenario, int) {
 		}
 		for _, p := range sp.apply(&rs[0]) {
 			if p.Key == key {
+				lastHash = rs[0].SchedHash
 				return true
 			}
 		}
@@ -1112,7 +1115,7 @@ func (e *Engine) minimise(sc Scenario, sp spec, key string) (Scenario, int) {
 			cur = x
 		}
 	}
-	return cur, runs
+	return cur, runs, lastHash
 }
 
 func (e *Engine) replay(c *core.Ctx, sp spec) (*core.Outcome, error) {
@@ -1127,6 +1130,11 @@ func (e *Engine) replay(c *core.Ctx, sp spec) (*core.Outcome, error) {
 	}
 	out := &core.Outcome{}
 	fmt.Printf("replay: schedule hash %s\n", res[0].SchedHash)
+	if tr, ok := c.Replay.Trace.(map[string]any); ok {
+		if want, _ := tr["sched_hash"].(string); want != "" {
+			fmt.Printf("replay: recorded schedule hash %s: realised schedule %s\n", want, map[bool]string{true: "reproduced exactly", false: "DIFFERS (tree changed, or a nondeterminism of the simulator)"}[want == res[0].SchedHash])
+		}
+	}
 	for _, p := range sp.apply(&res[0]) {
 		out.Violations = append(out.Violations, core.Violation{Key: p.Key, Oracle: p.Oracle, What: p.What, Seed: c.Seed, Scenario: rs})
 	}
